@@ -149,6 +149,49 @@ def run_all(repo_root: str, variants: List[Dict[str, Any]], jobs: int = 16) -> L
     return results
 
 
+REFACTORS = os.path.join(os.path.dirname(os.path.dirname(os.path.dirname(os.path.abspath(__file__)))), "refactors")
+
+
+def _run_refactor(args: Tuple[str, str, str]) -> Dict[str, Any]:
+    import subprocess
+    repo_root, prop, patch = args
+    rid = os.path.basename(os.path.dirname(patch))
+    tmp = tempfile.mkdtemp(prefix="skr_")
+    try:
+        make_copy(repo_root, tmp)
+        r = subprocess.run(["patch", "-p1", "-s", "-f", "-i", patch], cwd=tmp, capture_output=True, text=True)
+        if r.returncode != 0:
+            return {"id": rid, "skipped": "patch does not apply to this tree"}
+        res = evaluate(prop, tmp)
+        res["id"] = rid
+        return res
+    finally:
+        shutil.rmtree(tmp, ignore_errors=True)
+
+
+def run_refactors(repo_root: str, prop: str, jobs: int = 16) -> List[Dict[str, Any]]:
+    """behaviour-preserving refactorings written by independent maintainers (refactors/<id>/patch.diff): nothing may be reported"""
+    import glob
+    patches = sorted(glob.glob(os.path.join(REFACTORS, "*", "patch.diff")))
+    if not patches:
+        return []
+    base = evaluate(prop, repo_root)
+    out = []
+    with concurrent.futures.ProcessPoolExecutor(max_workers=min(jobs, len(patches))) as ex:
+        for res in ex.map(_run_refactor, [(repo_root, prop, p) for p in patches]):
+            r: Dict[str, Any] = {"id": res["id"], "kind": "refactoring", "prop": prop}
+            if "skipped" in res:
+                r["status"] = "skipped"
+                r["why"] = res["skipped"]
+            else:
+                new = [x for x in res["violated"] + res["unknown"] if x not in base["violated"] and x not in base["unknown"]]
+                r["status"] = "FALSE-ALARM" if new else "silent"
+                if new:
+                    r["by"] = ["%s: %s — %s" % (h[0], h[1], res["detail"].get("%s|%s" % tuple(h), "")) for h in new][:3]
+            out.append(r)
+    return out
+
+
 def run_for_property(ck: Check, repo_root: str) -> None:
     """thorough tier: the corpus of this property. A missed seeded defect or a twin that fires is analysis-broken (exit 2)."""
     vs = corpus(ck.prop)
@@ -163,6 +206,13 @@ def run_for_property(ck: Check, repo_root: str) -> None:
         "skipped_anchor_not_found": [r["id"] for r in skipped],
         "results": res,
     }
+    rf = run_refactors(repo_root, ck.prop)
+    ck.selftest["refactorings"] = len(rf)
+    ck.selftest["refactorings_silent"] = len([r for r in rf if r["status"] == "silent"])
+    ck.selftest["refactorings_skipped"] = [r["id"] for r in rf if r["status"] == "skipped"]
+    for r in rf:
+        if r["status"] == "FALSE-ALARM":
+            ck.unknown("selftest", "refactoring %s" % r["id"], "self-test failed: behaviour-preserving refactoring %s raised %s" % (r["id"], r.get("by")))
     for r in missed:
         ck.unknown("selftest", "seeded defect %s" % r["id"], "self-test failed: seeded defect %s was not reported (expected rule %s)" % (r["id"], r["expect"]))
     for r in false:
